@@ -389,25 +389,40 @@ theorem transparent_bytes (cfg : Cfg Bytes) (hsz : cfg.size = List.length) (offe
       = some (writtenBytes ops) := by
   rw [transparent cfg offered prefer req ops h101]
   simp only [Option.map_some, Option.some.injEq]
-  unfold written writtenBytes
-  induction ops with
-  | nil => rfl
-  | cons op ops ih =>
-    have ih' := ih (fun o ho => h101 o (List.mem_cons_of_mem _ ho))
-    simp only [List.flatMap_cons, List.flatten_append, List.map_cons, List.flatten_cons, ih']
-    congr 1
-    cases op with
-    | write p =>
-      simp only [opPayloads, hsz]
-      by_cases hp : p = []
-      · simp [hp]
-      · simp [hp]
-    | readFrom cs => exact flatten_nonEmpty cfg hsz cs
-    | writeHeader s => rfl
-    | flush => rfl
-    | hset k v => rfl
-    | hadd k v => rfl
-    | hdel k => rfl
+  exact written_flatten cfg hsz ops
+
+/-- **transparency in bytes, no hypothesis**: nothing where HTTP forbids a body, otherwise the concatenation of
+    everything the handler wrote -/
+theorem transparent_total_bytes (cfg : Cfg Bytes) (hsz : cfg.size = List.length) (offered prefer : List Bytes)
+    (req : Req) (head : Bool) (ops : List (Op Bytes)) :
+    (delivered head (serve cfg offered prefer req ops).sel (serve cfg offered prefer req ops).final).map List.flatten
+      = some (if head || noBodyStatus (serve cfg offered prefer req ops).final then [] else writtenBytes ops) := by
+  rw [transparent_total_serve cfg offered prefer req head ops]
+  simp only [Option.map_some, Option.some.injEq]
+  split
+  · rfl
+  · exact written_flatten cfg hsz ops
+
+/-! ### a buffering middleware behind the encode handler (`templates`, `intercept`, `handle_response`) -/
+
+/-- **the recorder passes on every byte, in order**: whatever the handler does and whatever the recorder decides
+    (stream, buffer, re-decide after a 1xx), the calls that reach the wrapped writer — including the one big
+    `Write` of `WriteResponse` — carry exactly the bytes the handler wrote. -/
+theorem recorder_passes_all_bytes (shouldBuffer : Nat → Bool) (ops : List (Op Bytes)) :
+    writtenBytes (recorderOps shouldBuffer List.flatten List.isEmpty ops) = writtenBytes ops :=
+  recorderOps_bytes shouldBuffer ops
+
+/-- **so the chain encode → recorder → handler is transparent**: the client obtains the handler's bytes (or
+    nothing where HTTP forbids a body), whichever coding is negotiated and whatever is buffered. -/
+theorem buffering_middleware_is_transparent (cfg : Cfg Bytes) (hsz : cfg.size = List.length)
+    (offered prefer : List Bytes) (req : Req) (head : Bool) (shouldBuffer : Nat → Bool) (ops : List (Op Bytes)) :
+    (delivered head
+        (serve cfg offered prefer req (recorderOps shouldBuffer List.flatten List.isEmpty ops)).sel
+        (serve cfg offered prefer req (recorderOps shouldBuffer List.flatten List.isEmpty ops)).final).map List.flatten
+      = some (if head || noBodyStatus
+            (serve cfg offered prefer req (recorderOps shouldBuffer List.flatten List.isEmpty ops)).final
+          then [] else writtenBytes ops) := by
+  rw [transparent_total_bytes cfg hsz, recorder_passes_all_bytes]
 
 /-! ### entity tags -/
 
@@ -828,6 +843,16 @@ example : ineligible (run exCfg (St.init vZstd false) [.hset kCT exTextHtml, .hs
     ineligible (run exCfg (St.init vZstd false) [.hset kCC vNoTransform, .writeHeader 103]).hdr = true ∧
     (runWrapped exCfg vZstd false ([.hset kCT exTextHtml, .hset kCE vGzip] ++ [.writeHeader 200, .readFrom [512, 2000]])).log
       = [.w 2000, .w 512, .wh 200 [(kCE, [vGzip]), (kCT, [exTextHtml])]] := by decide
+
+-- the recorder: buffering turns [Write 3 bytes, Flush, ReadFrom 2+1 bytes] under status 200 into one WriteHeader and one
+-- 6-byte Write; streaming passes the calls on; after a 103 the decision is taken again at the final header
+example : recorderOps (bufferMode 1) List.flatten List.isEmpty
+      ([.hset kCT exTextHtml, .writeHeader 103, .writeHeader 200, .write [1, 2, 3], .flush, .readFrom [[4, 5], [6]]] : List (Op Bytes))
+    = [.hset kCT exTextHtml, .writeHeader 103, .writeHeader 200, .write [1, 2, 3, 4, 5, 6]] ∧
+    recorderOps (bufferMode 0) List.flatten List.isEmpty ([.flush, .write [1], .flush] : List (Op Bytes))
+    = [.writeHeader 200, .write [1], .flush] ∧
+    recorderOps (bufferMode 2) List.flatten List.isEmpty ([.writeHeader 404, .write [1]] : List (Op Bytes))
+    = [.writeHeader 404, .write [1]] := by decide
 
 -- `status_preserved`: its hypotheses are met by exOps' shape (pre = 4 ops, s = 200, body = 4 ops)
 example : ∀ op ∈ ([.hset kCT exTextHtml, .writeHeader 103] : List (Op Nat)), Preliminary op := by
